@@ -18,4 +18,6 @@ static inline _Bool vg_head_sync_prev(const struct jls_core_chunk_s * c, uint32_
 }
 /* a cached chunk lies completely inside the file */
 #define VG_CHUNK_IN_FILE(c, raw) ((c)->offset >= 16 && (c)->offset <= VG_FILE_MAX && (c)->offset + 32 + (int64_t) vg_disk_size((c)->hdr.payload_length) <= (raw)->backend.fend && (c)->hdr.payload_length <= VG_PAYLOAD_MAX)
+/* the witness header window holds the little-endian image of header h */
+#define VG_HWIN_IS(h) (vg_hwin[0] == vg_hdr_byte((h), 0) && vg_hwin[1] == vg_hdr_byte((h), 1) && vg_hwin[2] == vg_hdr_byte((h), 2) && vg_hwin[3] == vg_hdr_byte((h), 3) && vg_hwin[4] == vg_hdr_byte((h), 4) && vg_hwin[5] == vg_hdr_byte((h), 5) && vg_hwin[6] == vg_hdr_byte((h), 6) && vg_hwin[7] == vg_hdr_byte((h), 7) && vg_hwin[8] == vg_hdr_byte((h), 8) && vg_hwin[9] == vg_hdr_byte((h), 9) && vg_hwin[10] == vg_hdr_byte((h), 10) && vg_hwin[11] == vg_hdr_byte((h), 11) && vg_hwin[12] == vg_hdr_byte((h), 12) && vg_hwin[13] == vg_hdr_byte((h), 13) && vg_hwin[14] == vg_hdr_byte((h), 14) && vg_hwin[15] == vg_hdr_byte((h), 15) && vg_hwin[16] == vg_hdr_byte((h), 16) && vg_hwin[17] == vg_hdr_byte((h), 17) && vg_hwin[18] == vg_hdr_byte((h), 18) && vg_hwin[19] == vg_hdr_byte((h), 19) && vg_hwin[20] == vg_hdr_byte((h), 20) && vg_hwin[21] == vg_hdr_byte((h), 21) && vg_hwin[22] == vg_hdr_byte((h), 22) && vg_hwin[23] == vg_hdr_byte((h), 23) && vg_hwin[24] == vg_hdr_byte((h), 24) && vg_hwin[25] == vg_hdr_byte((h), 25) && vg_hwin[26] == vg_hdr_byte((h), 26) && vg_hwin[27] == vg_hdr_byte((h), 27) && vg_hwin[28] == vg_hdr_byte((h), 28) && vg_hwin[29] == vg_hdr_byte((h), 29) && vg_hwin[30] == vg_hdr_byte((h), 30) && vg_hwin[31] == vg_hdr_byte((h), 31))
 #endif
